@@ -639,10 +639,14 @@ static void sc_jtswap(std::uint64_t seed)
     };
     auto A = std::make_shared<side>();
     auto B = std::make_shared<side>();
-    auto body = [](std::shared_ptr<side> s) {
-        return [s](pika::stop_token tok) {
+    // the parent BLOCKS until both bodies have started (polling `started` with yield() made the size of the log - every yield is an
+    // interruption test - depend on how quickly the OS ran the other workers: a clean-tree `livelock` verdict on a loaded machine)
+    auto up = std::make_shared<pika::counting_semaphore<>>(0);
+    auto body = [up](std::shared_ptr<side> s) {
+        return [s, up](pika::stop_token tok) {
             activity act;
             s->started.store(1);
+            up->release();
             // block (no polling: every yield is an interruption point and would flood the log) until stop is requested
             pika::mutex m;
             pika::condition_variable_any cv;
@@ -657,7 +661,8 @@ static void sc_jtswap(std::uint64_t seed)
         pika::jthread b(body(B));
         {
             pika::jthread a(body(A));
-            while (!A->started.load() || !B->started.load()) pika::this_thread::yield();
+            up->acquire();
+            up->acquire();
             yields(int(r.below(3)));
             if (how == 0) a.swap(b);
             else if (how == 1)
@@ -861,9 +866,11 @@ static void sc_staleintr(std::uint64_t seed)
     int victims = 6 + int(r.below(4));
     for (int v = 0; v < victims; ++v)
     {
-        pika::thread t([=] { activity a; });
-        // the function has returned and the exit processing is over when the state word says `terminated`
-        for (int i = 0; i < 20000; ++i)
+        auto fin = std::make_shared<pika::counting_semaphore<>>(0);
+        pika::thread t([=] { activity a; fin->release(); });
+        fin->acquire();    // (blocking: no polling for the start of the thread)
+        // the function has returned; usually the exit processing is over too a few yields later (state `terminated`) - bounded
+        for (int i = 0; i < 200; ++i)
         {
             if (ptd::get_thread_state(t.native_handle()).state() == ptd::thread_schedule_state::terminated) break;
             pika::this_thread::yield();
